@@ -149,6 +149,8 @@ package cache
 //@   ensures [C03] result1 == nil && result0.Stale ==> c.entries[key].meta.Expires < now
 //@   ensures [C03] result1 == nil && !result0.Stale ==> c.entries[key].meta.Expires >= old(now)
 //@   ensures forall k key :: in(c.entries, k) == old(in(c.entries, k)) && c.entries[k] == old(c.entries[k])
+// Freshness is judged once the entry's lock is held, not with a clock read before waiting for it.
+//@   ensures [C03] result1 == nil && !result0.Stale ==> result0.Metadata.Expires >= locknow
 
 // ---------------------------------------------------------------- janitor callbacks
 
@@ -322,6 +324,8 @@ package cache
 //@   ensures [C03] result1 == nil && result0.Stale ==> c.entriesMetadata[key].Expires < now
 //@   ensures [C03] result1 == nil && !result0.Stale ==> c.entriesMetadata[key].Expires >= old(now)
 //@   ensures forall k key :: in(c.entriesMetadata, k) == old(in(c.entriesMetadata, k)) && c.entriesMetadata[k] == old(c.entriesMetadata[k])
+// Freshness is judged once the entry's lock is held, not with a clock read before waiting for it.
+//@   ensures [C03] result1 == nil && !result0.Stale ==> result0.Metadata.Expires >= locknow
 
 // Storing: on success the file of the key holds all bytes of the reader and the
 // recorded size is their number; on any failure the previous entry of the key
